@@ -391,6 +391,102 @@ func (w *walker) beginFail(b *ast.BlockStmt) {
 	}
 }
 
+// ---- tolerated errors: `if <err> != nil { … }` blocks that can be left without returning a non-nil error
+
+func mentionsErrNotNil(f *astx.File, e ast.Expr) bool {
+	found := false
+	ast.Inspect(e, func(n ast.Node) bool {
+		if be, ok := n.(*ast.BinaryExpr); ok && be.Op == token.NEQ {
+			if id, ok := be.X.(*ast.Ident); ok && strings.HasPrefix(strings.ToLower(id.Name), "err") {
+				if n2, ok := be.Y.(*ast.Ident); ok && n2.Name == "nil" {
+					found = true
+				}
+			}
+		}
+		return true
+	})
+	return found
+}
+
+// escapes lists how control can leave `block` other than by returning a non-nil error; chain is the condition path.
+func escapes(f *astx.File, block []ast.Stmt, chain string, out *[]string) (terminated bool) {
+	for _, st := range block {
+		switch x := st.(type) {
+		case *ast.ReturnStmt:
+			if len(x.Results) > 0 {
+				if id, ok := x.Results[len(x.Results)-1].(*ast.Ident); ok && id.Name == "nil" {
+					*out = append(*out, chain+" => return nil")
+				}
+			}
+			return true
+		case *ast.BranchStmt:
+			*out = append(*out, chain+" => "+x.Tok.String())
+			return true
+		case *ast.IfStmt:
+			t1 := escapes(f, x.Body.List, chain+" && "+f.Src(x.Cond), out)
+			t2 := false
+			switch e := x.Else.(type) {
+			case *ast.BlockStmt:
+				t2 = escapes(f, e.List, chain+" && !("+f.Src(x.Cond)+")", out)
+			case *ast.IfStmt:
+				t2 = escapes(f, []ast.Stmt{e}, chain+" && !("+f.Src(x.Cond)+")", out)
+			}
+			if t1 && t2 {
+				return true
+			}
+		case *ast.ExprStmt:
+			if c, ok := x.X.(*ast.CallExpr); ok && f.Src(c.Fun) == "panic" {
+				return true
+			}
+		}
+	}
+	return false
+}
+
+func tolerances(adapter string, f *astx.File) []string {
+	var out []string
+	for _, d := range f.File.Decls {
+		fd, ok := d.(*ast.FuncDecl)
+		if !ok || fd.Body == nil {
+			continue
+		}
+		src := f.Src(fd)
+		if !strings.Contains(src, "tx ") && !strings.Contains(src, ".Begin") {
+			continue
+		}
+		// only functions that work on a transaction: a `tx` parameter or a Begin call
+		hasTx := strings.Contains(f.Src(fd.Body), ".Begin(") || strings.Contains(f.Src(fd.Body), ".BeginTx(") || strings.Contains(f.Src(fd.Body), ".BeginTxx(")
+		for _, p := range fd.Type.Params.List {
+			for _, n := range p.Names {
+				if n.Name == "tx" {
+					hasTx = true
+				}
+			}
+		}
+		if !hasTx || fd.Name.Name == "CreateDb" || fd.Name.Name == "UpgradeDb" {
+			continue
+		}
+		ast.Inspect(fd.Body, func(n ast.Node) bool {
+			if _, isLit := n.(*ast.FuncLit); isLit {
+				return false
+			}
+			if is, ok := n.(*ast.IfStmt); ok && mentionsErrNotNil(f, is.Cond) {
+				var esc []string
+				term := escapes(f, is.Body.List, f.Src(is.Cond), &esc)
+				if !term {
+					esc = append(esc, f.Src(is.Cond)+" => falls through")
+				}
+				for _, e := range esc {
+					out = append(out, adapter+"."+fd.Name.Name+": "+e)
+				}
+			}
+			return true
+		})
+	}
+	sort.Strings(out)
+	return out
+}
+
 func analyse(adapter string, f *astx.File) []*fn {
 	var out []*fn
 	for _, d := range f.File.Decls {
@@ -433,9 +529,11 @@ func analyse(adapter string, f *astx.File) []*fn {
 func main() {
 	repo, outPath := os.Args[1], os.Args[2]
 	var all []*fn
+	var tol []string
 	for _, ad := range []string{"mysql", "postgres"} {
 		f := astx.Parse(filepath.Join(repo, "server", "db", ad, "adapter.go"))
 		all = append(all, analyse(ad, f)...)
+		tol = append(tol, tolerances(ad, f)...)
 	}
 	if len(all) < 20 {
 		astx.Fail("only %d transactional functions found; the adapters' shape changed", len(all))
@@ -463,7 +561,9 @@ func main() {
 		}
 		b.WriteString("\n")
 	}
-	b.WriteString("]\n\nend Tinode.Gen.TxSkel\n")
+	b.WriteString("]\n\n/-- every way a block guarded by `err != nil` can be left without returning a non-nil error -/\n")
+	b.WriteString("def tolerated : List String := " + astx.LeanStrings(tol) + "\n")
+	b.WriteString("\nend Tinode.Gen.TxSkel\n")
 	if err := os.WriteFile(outPath, []byte(b.String()), 0644); err != nil {
 		astx.Fail("%v", err)
 	}
